@@ -382,6 +382,31 @@ def obligations(tier):
 
         obs.append(Obligation(f'equality.{name}', body, twin=lambda cx, b=body: b(cx, wrong=True), opts={'weight': 2}, desc='g(e1) == g(e2) / approx_eq / equal_up_to_global_phase True on a path (periodic canonicalisation of symbolic exponents) implies the documented matrices agree (up to phase for the last)'))
 
+    # ---- 5a'. value equality of the IonQ native gates (all constructor parameters are part of the value) -----------------
+    def eq_ionq_body(cx, wrong=False):
+        import cirq_ionq
+
+        kind = cx.choose('gate', 4)
+        a = [cx.real(f'a{i}', -1.0, 1.0) for i in range(3)]
+        b = [cx.real(f'b{i}', -1.0, 1.0) for i in range(3)]
+        if kind == 0:
+            g1, g2, d1, d2 = cirq_ionq.GPIGate(phi=a[0]), cirq_ionq.GPIGate(phi=b[0]), D.gpi(a[0]), D.gpi(b[0])
+        elif kind == 1:
+            g1, g2, d1, d2 = cirq_ionq.GPI2Gate(phi=a[0]), cirq_ionq.GPI2Gate(phi=b[0]), D.gpi2(a[0]), D.gpi2(b[0])
+        elif kind == 2:
+            g1, g2 = cirq_ionq.MSGate(phi0=a[0], phi1=a[1], theta=a[2]), cirq_ionq.MSGate(phi0=b[0], phi1=b[1], theta=b[2])
+            d1, d2 = D.ionq_ms(a[0], a[1], a[2]), D.ionq_ms(b[0], b[1], b[2])
+        else:
+            g1, g2, d1, d2 = cirq_ionq.ZZGate(theta=a[0]), cirq_ionq.ZZGate(theta=b[0]), D.ionq_zz(a[0]), D.ionq_zz(b[0])
+        r = g1 == g2
+        if wrong:
+            r = True
+        if bool(r):
+            cx.check(hash(g1) == hash(g2), label='ionq gates: equal => equal hash')
+            cx.close(d1, d2, tol=1e-6, label='ionq native gates: g1 == g2 => equal documented matrices')
+
+    obs.append(Obligation('equality.ionq', eq_ionq_body, twin=lambda cx: eq_ionq_body(cx, wrong=True), opts={'weight': 2}, desc='cirq_ionq GPIGate / GPI2Gate / MSGate / ZZGate with all constructor parameters symbolic: g1 == g2 (and equal hash) implies equal documented matrices'))
+
     # ---- 5b. equality predicates on OPERATIONS: qubit order matters -----------------------------------------------------
     EQ_OPS = [('CX', cirq.CXPowGate, D.CX, 2), ('CZ', cirq.CZPowGate, D.CZ, 2), ('CY', cirq.CYPowGate, D.CY, 2), ('SWAP', cirq.SwapPowGate, D.SWAP, 2), ('CCX', cirq.CCXPowGate, D.CCX, 3), ('CCZ', cirq.CCZPowGate, D.CCZ, 3)]
 
@@ -405,6 +430,36 @@ def obligations(tier):
         if bool(r):
             # no global shift: all three predicates then mean equality of the operators on the fixed qubit order
             cx.close(EM.embed_matrix(doc(e1), list(p1), k), EM.embed_matrix(doc(e2), list(p2), k), tol=1e-6, label=f'{name}: predicate {mode} True on operations => same operator on (q0..q{k - 1})')
+
+    # gates whose interchangeability of the two qubits DEPENDS on their (symbolic) parameters
+    def eq_ops_param_body(cx, wrong=False):
+        kind = cx.choose('gate', 3)
+        qs = cirq.LineQubit.range(2)
+        th = cx.real('theta', -4.0, 4.0)
+        a, b, c = cx.real('a', -4.0, 4.0), cx.real('b', -4.0, 4.0), cx.real('c', -4.0, 4.0)
+        special = cx.choose('theta_at', 5)  # generic, or pinned to the special angles at which sub-blocks vanish
+        if special:
+            th = [None, 0.0, math.pi / 2, -math.pi / 2, math.pi][special]
+        if kind == 0:
+            g = cirq.PhasedFSimGate(theta=th, zeta=a, chi=b, gamma=c, phi=cx.real('phi', -4.0, 4.0))
+        elif kind == 1:
+            g = cirq.FSimGate(theta=th, phi=a)
+        else:
+            g = cirq.PhasedISwapPowGate(phase_exponent=a, exponent=b)
+        op1, op2 = g.on(qs[0], qs[1]), g.on(qs[1], qs[0])
+        # (equal_up_to_global_phase on these operations first asks the same grouping question and then compares the
+        # two equal gates numerically through ndarray.item(): not symbolic, and trivially true)
+        mode = 0
+        r = op1 == op2
+        if wrong:
+            r = True
+        if bool(r):
+            if not wrong:
+                cx.check(hash(op1) == hash(op2), label='equal operations have equal hashes')
+            U = np.asarray(cirq.unitary(g), dtype=object)
+            cx.close(EM.embed_matrix(U, [0, 1], 2), EM.embed_matrix(U, [1, 0], 2), tol=1e-6, label=f'gate kind {kind}: g(a, b) == g(b, a) (predicate {mode}) => the matrix is symmetric under exchanging the qubits')
+
+    obs.append(Obligation('equality.operations_exchange_param', eq_ops_param_body, twin=lambda cx: eq_ops_param_body(cx, wrong=True), opts={'weight': 6}, desc='PhasedFSimGate / FSimGate / PhasedISwapPowGate with symbolic angles (theta also pinned to 0, +-pi/2, pi): if g.on(a, b) == g.on(b, a), the gate matrix is invariant under exchanging its qubits (qubit_index_to_equivalence_group_key depends on the parameters)'))
 
     obs.append(Obligation('equality.operations_qubit_order', eq_ops_body, twin=lambda cx: eq_ops_body(cx, wrong=True), opts={'weight': 6}, desc='op1 == op2 / approx_eq / equal_up_to_global_phase on (tagged) gate OPERATIONS of 6 two/three-qubit gate families placed on every pair of qubit orders, symbolic exponents: a True answer implies the same operator on the fixed qubit order (asymmetric gates on exchanged qubits are different operations)'))
 
